@@ -20,7 +20,7 @@
 
    Exact arithmetic.  Every observable is  base * product of integer powers of the material factors
    f[c,t] (solids) or rho[c,t] (fluids), c a component, t a temperature index.  The model carries only the
-   integer exponent vector (module Monomial, atom (c,t) = index (c-1)*NT+t) and a symbolic base
+   integer exponent vector (module Monomial: packed into one integer, atom (c,t) = index (c-1)*NT+t) and a symbolic base
    <<bc, bd, b>> = "the b-th table value of dimension bd of component bc" (b = 0: the constructor input).
    The adapter measures f[c,t] once per (material, temperature) from material.linearExpansionPercent and
    evaluates the printed monomials; the laws themselves are integer-vector equalities decided here by TLC.
@@ -64,8 +64,8 @@ MutDim    == {"e1", "e2", "n"}
 Kinds     == {"solid", "inert", "fluid", "void", "custom"}
 NA        == 2 * NT
 Atom(c, t) == (c - 1) * NT + t
-Zero      == MZero(NA)
-U(c, t)   == MUnit(NA, Atom(c, t))
+Zero      == MZero
+U(c, t)   == MUnit(Atom(c, t))
 
 VARIABLES kind, Tin, T0, T, p, nd, act, err
 state == <<kind, Tin, T0, T, p, nd>>
@@ -108,23 +108,31 @@ Growth(c, d) == MSub(Hot(c, d).e, Cold(c, d).e)       \* hot / cold of one dimen
 TEFQ(c) == IF TEFRefused(c, T[c], Tin[c]) THEN Refused ELSE [r |-> "ok", e |-> TEF(c, T[c], Tin[c])]
 
 \* getArea() relative to getArea(cold=True): degree-2 homogeneous in the lengths
-AreaQ(c) == IF \E d \in Expanding : Hot(c, d).r # "ok" THEN Refused
-            ELSE IF \A d \in Expanding : Growth(c, d) = Growth(c, "e0")
-                 THEN [r |-> "ok", e |-> MScale(2, Growth(c, "e0"))]
-                 ELSE [r |-> "mixed"]
+AreaQ(c) == LET h0 == Hot(c, "e0")  h1 == Hot(c, "e1")  h2 == Hot(c, "e2")     \* (scalar LETs: TLC evaluates each once)
+                g0 == MSub(h0.e, Cold(c, "e0").e)
+                g1 == MSub(h1.e, Cold(c, "e1").e)
+                g2 == MSub(h2.e, Cold(c, "e2").e)
+            IN IF h0.r # "ok" \/ h1.r # "ok" \/ h2.r # "ok" THEN Refused
+               ELSE IF g1 = g0 /\ g2 = g0
+                    THEN [r |-> "ok", e |-> MScale(2, g0)]
+                    ELSE [r |-> "mixed"]
 \* getMass() / height relative to (mass density of the constructed number densities) * getArea(cold=True)
-MPH(c) == IF AreaQ(c).r = "ok" THEN [r |-> "ok", e |-> MAdd(nd[c], AreaQ(c).e)] ELSE AreaQ(c)
+MPHof(c, a) == IF a.r = "ok" THEN [r |-> "ok", e |-> MAdd(nd[c], a.e)] ELSE a
+MPH(c) == LET a == AreaQ(c) IN MPHof(c, a)
 
+\* printing: exponent vectors unpacked to arrays over the atoms (c,t) -> index (c-1)*NT+t
+Pr(q) == IF q.r = "ok" THEN [q EXCEPT !.e = MVec(q.e, NA)] ELSE q
 Obs == [c \in Comp |->
+          LET a == AreaQ(c) IN
           [T    |-> T[c],
-           tef  |-> TEFQ(c),
-           nd   |-> nd[c],
-           hot  |-> [d \in Dim |-> Hot(c, d)],
-           cold |-> [d \in Dim |-> Cold(c, d)],
-           at   |-> [t \in Temp |-> [d \in Dim |-> Q(c, d, t, FALSE)]],
+           tef  |-> Pr(TEFQ(c)),
+           nd   |-> MVec(nd[c], NA),
+           hot  |-> [d \in Dim |-> Pr(Hot(c, d))],
+           cold |-> [d \in Dim |-> Pr(Cold(c, d))],
+           at   |-> [t \in Temp |-> [d \in Dim |-> Pr(Q(c, d, t, FALSE))]],
            link |-> [d \in MutDim |-> p[c][d].k = "l"],
-           area |-> AreaQ(c),
-           mph  |-> MPH(c)]]
+           area |-> Pr(a),
+           mph  |-> Pr(MPHof(c, a))]]
 
 (* ---------------------------------- component.py: mutators ---------------------------------- *)
 Ok(a)        == err' = "" /\ act' = a
@@ -207,13 +215,14 @@ DensityShrinksBySquare ==
 \*  input to current temperature" (unlinked lengths of expanding solids), and counts do not change
 DimensionLaw ==
     \A c \in Comp : \A d \in Dim :
-        P(c, d).k = "v" =>
-            /\ Cold(c, d) = [r |-> "ok", bc |-> P(c, d).bc, bd |-> P(c, d).bd, b |-> P(c, d).b, e |-> P(c, d).e]
-            /\ (d \notin Expanding => Hot(c, d) = Cold(c, d))
+        LET x == P(c, d)  h == Hot(c, d)  cl == Cold(c, d)  own == MSub(U(c, T[c]), U(c, Tin[c])) IN
+        x.k = "v" =>
+            /\ cl = [r |-> "ok", bc |-> x.bc, bd |-> x.bd, b |-> x.b, e |-> x.e]
+            /\ (d \notin Expanding => h = cl)
             /\ (d \in Expanding /\ kind[c] = "solid" =>
-                    /\ Hot(c, d).r = "ok"
-                    /\ Growth(c, d) = MSub(U(c, T[c]), U(c, Tin[c]))
-                    /\ \A t \in Temp : Q(c, d, t, FALSE).e = MAdd(Cold(c, d).e, MSub(U(c, t), U(c, Tin[c]))))
+                    /\ h.r = "ok"
+                    /\ MSub(h.e, cl.e) = own
+                    /\ \A t \in Temp : Q(c, d, t, FALSE).e = MAdd(cl.e, MSub(U(c, t), U(c, Tin[c]))))
 
 \* "its area grows by the square of the material's linear expansion factor"
 AreaGrowsBySquare ==
@@ -223,8 +232,8 @@ AreaGrowsBySquare ==
 \* "conserves its mass per unit height": for a solid whose lengths all follow its own factor, the mass per unit
 \* height (per unit cold area) does not depend on the current temperature -- it is the value at construction
 MassPerHeightConserved ==
-    \A c \in Comp : kind[c] = "solid" /\ MPH(c).r = "ok" =>
-        MPH(c).e = MScale(2, MSub(U(c, T0[c]), U(c, Tin[c])))
+    \A c \in Comp : kind[c] = "solid" =>
+        LET m == MPH(c) IN m.r = "ok" => m.e = MScale(2, MSub(U(c, T0[c]), U(c, Tin[c])))
 
 \* "(and setting a hot dimension reads back that value)" -- also through a retained link, and for cold sets
 ReadBack ==
@@ -235,10 +244,11 @@ ReadBack ==
 \* "a dimension linked to another component always equals that component's current dimension"
 LinkEquality ==
     \A c \in Comp, d \in MutDim :
-        p[c][d].k = "l" =>
-            /\ Hot(c, d) = Hot(p[c][d].c, p[c][d].d)
-            /\ Cold(c, d) = Cold(p[c][d].c, p[c][d].d)
-            /\ \A t \in Temp : Q(c, d, t, FALSE) = Q(p[c][d].c, p[c][d].d, t, FALSE)
+        LET x == p[c][d] IN
+        x.k = "l" =>
+            /\ Hot(c, d) = Hot(x.c, x.d)
+            /\ Cold(c, d) = Cold(x.c, x.d)
+            /\ \A t \in Temp : Q(c, d, t, FALSE) = Q(x.c, x.d, t, FALSE)
 
 \* "fluids and custom materials keep their dimensions"
 FluidsAndCustomKeepDimensions ==
